@@ -303,7 +303,14 @@ def run(spec, ctx):
                   "$[1:2]", "$[::2]", "$[::-1]", "$[:1]", "$[-1:]", "$[1::]", "$[0,1:2,*]", "$..[*]", "$..*", "$.*", "$[*]", "$['a']['b']", "$.a[0]['b']", "$..['a','b']", "$", "", "$[?@[?@.a]]",
                   "$[?count(@..*) > 2]", "$[?value(@.*) == 1]", "$[?search(@.a, 'x') && match(@.b, 'y')]", "$[?@.a[0] == @['b'][-1]]", "$[?$.a.b == @.c]", "$[?@ == 'x']", "$[?@]", "$[?!@]",
                   "$[?@.a == [1, 2]]", "$[?@.a in ['a', 'b', null, true, 1.5]]", "$[?[1] contains @.a]"]
-        docs = POOL + [[{"a": v, "b": 1, "c": 0} for v in (1, 2, "x", "a'b", 'a"b', "a\\b", True, False, None, 100.0, 1e20, 1e-7, 0, -0.0, 1.5, 1500.0, "x\ny", "xzy")]]
+        # bare identifiers (no segments) as operands and function arguments, each kind next to the others and in both orders
+        bare = ["$[?length(%s) == 1]", "$[?length(%s) == 2]", "$[?count(%s) == 1]", "$[?%s == $[0]]", "$[?@ > 1 && length(%s) == 1]", "$..[?length(%s) > 1]", "$[?value(%s) == 5]", "$[?typeof(%s) == 'array']"]
+        for order in (["@", "$", "^", "_"], ["^", "_", "$", "@"], ["_", "^", "@", "$"]):
+            for t in bare:
+                for ident in order:
+                    texts.append(t % ident)
+        texts += ["$[?length(^) == 1 && length($) == 2]", "$[?length($) == 2 && length(^) == 1]", "$[?^ == $]", "$[?$ == ^]", "$[?_ == @ || ^ == @]", "^[?length(^) == 1]", "^[?length($) == 2]", "$[?count(^) == count($)]"]
+        docs = POOL + [[5, 6], [[5, 6]], {"a": [5, 6]}, [5]] + [[{"a": v, "b": 1, "c": 0} for v in (1, 2, "x", "a'b", 'a"b', "a\\b", True, False, None, 100.0, 1e20, 1e-7, 0, -0.0, 1.5, 1500.0, "x\ny", "xzy")]]
         for t in texts:
             check_text(ctx, t, docs, "directed", must_compile=False)
         ctx.count("directed_texts", len(texts))
